@@ -157,6 +157,12 @@ func instrumentDir(dir, label string) error {
 		if e.IsDir() || !strings.HasSuffix(name, ".go") || strings.HasSuffix(name, "_test.go") {
 			continue
 		}
+		// randutil.go (MaybeReadByte) is left alone: its select picks a branch by the runtime's
+		// own coin and the branches have different numbers of statements, so yields inside it
+		// would shift every later yield index of the call from run to run
+		if name == "randutil.go" {
+			continue
+		}
 		// files whose build constraints do not match this platform are left alone
 		if ok, err := build.Default.MatchFile(dir, name); err != nil || !ok {
 			continue
